@@ -36,6 +36,16 @@ DECLINED = ["that the shift LP's optimum never worsens the true value (LP semant
             "numerical equality between the model value and Circuit::hpwl() (C09)"]
 
 
+def check_shared_frames(ctx, rep):
+    """SR / QF (shared with C08-D3 and C09-QF): the optimisation passes take cell positions from their own models, never from the
+    Circuit (which holds the last export and is stale between callbacks), and the incremental wirelength models are built in the
+    placed frame, the one Circuit::hpwl() is defined on."""
+    from .c08 import check_d3
+    from .c09 import check_model_frame
+    check_d3(ctx, rep, "SR", [("DetailedPlacer::run", ["cellX_", "cellY_", "cellOrientation_"])])
+    check_model_frame(ctx, rep, "QF")
+
+
 def run(ctx, rep, tier):
     prog, eff = ctx.prog, ctx.eff
     rep.rule("MV", "doSwap/doInsert only from the best* searches, under a feasibility witness", 3)
@@ -46,6 +56,8 @@ def run(ctx, rep, tier):
     rep.rule("AP", "shift LP models every pin of the nets it touches", 1)
     rep.rule("PC", "committed position computed in the state the probe evaluated (before unplace)", 2)
     rep.rule("DF", "snapshotted pin offsets refreshed when orientation changes", 1)
+    rep.rule("SR", "optimisation passes never read (stale) coordinates back from the Circuit", 1)
+    rep.rule("QF", "incremental wirelength models are built in the placed frame", 4)
     check_moves(ctx, rep)
     check_probes(ctx, rep)
     check_sync(ctx, rep)
@@ -53,6 +65,7 @@ def run(ctx, rep, tier):
     check_allpins(ctx, rep)
     check_fresh(ctx, rep)
     check_probe_commit(ctx, rep, "PC")
+    check_shared_frames(ctx, rep)
 
 
 def check_probe_commit(ctx, rep, rid):
